@@ -1151,7 +1151,7 @@ SPECS = [
     RuleSpec("C04.R3", rule_r3, 9, "A8", "dispatch: hex tempo / #BPMxx lookup / lane column / LN marker pairing on one lane / #WAV sample"),
     RuleSpec("C04.R4", rule_r4, 7, "A1", "header fields: same field read and written; other headers retained; initial tempo at 0"),
     RuleSpec("C04.R5", rule_r5, 3, "A8", "objects timed by the un-reseated map from sorted changes at 0 ms; tempo list from the reseated map"),
-    RuleSpec("C04.R6", rule_r6, 1, "A5", "LN pairing must not depend on the order of the lines"),
+    RuleSpec("C04.R6", rule_r6, 1, "A5", "LN pairing must not depend on the order of the lines; the caller does not re-order lines by their content"),
     RuleSpec("C04.R7", rule_r7, 5, "A7", "line slicing '#mmmcc:' and slot position i/n * beats-per-measure"),
     RuleSpec("C04.R9", rule_r9, 1, "A8", "every data line reaches the note reader (no keyed overwrite)"),
     RuleSpec("C04.R10", rule_r10, 2, "A8", "read_file / read forward the channel layout they accept"),
